@@ -130,6 +130,9 @@ func (p c18) Run(c *fw.Case) {
 		for _, i := range r.Perm(len(all))[:12] {
 			unevalInsts = append(unevalInsts, all[i])
 		}
+		if r.IntN(3) == 0 {
+			unevalInsts = append(unevalInsts, gen.ULongInstances(r, array, 1)...)
+		}
 	} else {
 		doc = gen.Schema(r, gen.SchemaOpts{Draft: draft, MaxDepth: 2 + r.IntN(2), Refs: r.IntN(2) == 0, Uneval: true, NoMeta: true})
 	}
